@@ -18,7 +18,7 @@ import (
 // C13 directed histories: savings paid out of the net fees across zero-rate windows (seeded change s94 was reported only as a
 // correspondence break). Several lockers of one (app, asset); the saving rate is switched off and on again through the REAL wasm
 // binding (MsgUpdateCollectorLookupTable dispatched as JSON through the app's CustomMessenger); idle lockers, a locker touched in
-// the window (reproduced defect D35), lockers created in the window; reward calculation in the block of the switch-on. Same `lk.*`
+// the window (reproduced defect D45), lockers created in the window; reward calculation in the block of the switch-on. Same `lk.*`
 // lines as the main histories; the driver's ghost monitor `savings_zero_rate_window` judges what the REAL calls credited.
 // ---------------------------------------------------------------------------------------------
 
@@ -143,7 +143,7 @@ func (z *c13ZW) lsr(newRate sdk.Dec) {
 }
 
 // zeroWindowSequence: variant 0 = the history of s94 (idle lockers, a year at rate zero, switch-on and trigger in one block),
-// variant 1 = one of the lockers is deposited into during the window (defect D35), variant 2 = lockers created during the window and
+// variant 1 = one of the lockers is deposited into during the window (defect D45), variant 2 = lockers created during the window and
 // a change r -> r' afterwards; variant >= 3: random lengths, rates and amounts.
 func (e *c13Env) zeroWindowSequence(base sdk.Context, variant int) {
 	ctx, _ := base.CacheContext()
